@@ -98,7 +98,7 @@ def mutants(seed, tier):
         rc, log = _run_on_patch(pt, prop)
         return pt, prop, rc, log
 
-    with ThreadPoolExecutor(max_workers=3) as ex:
+    with ThreadPoolExecutor(max_workers=1) as ex:
         for pt, prop, rc, log in ex.map(job, pats):
             rows.append({"patch": os.path.basename(pt), "check": prop, "exit": rc})
             print("%-46s %s exit=%d %s" % (os.path.basename(pt), prop, rc, "caught" if rc == 1 else "MISSED"))
@@ -114,7 +114,7 @@ def mutants(seed, tier):
             out.append((pt, prop, rc, log))
         return out
 
-    with ThreadPoolExecutor(max_workers=3) as ex:
+    with ThreadPoolExecutor(max_workers=1) as ex:
         for res in ex.map(cjob, ctrl):
             for pt, prop, rc, log in res:
                 rows.append({"control": os.path.basename(pt), "check": prop, "exit": rc})
